@@ -172,6 +172,14 @@ PROPS = {
                              "CLI: the quit closure and the signal gate are proved; clap parsing and the signal sources are C01's sources unit"],
                 claim="Verus proves action::worker: loop ends only on quit or closed channel; abort quits at once; graceful quit stops-then-deletes every held job with the requested signal/grace and waits for all quit tasks and all job tasks; CLI: quit escalates graceful(stop signal, stop timeout) -> forced -> abort, an unmapped interrupt/terminate leads to exactly that quit; Handler::quit/quit_gracefully set the manner; job-side stop/delete/ticket behaviour is units task/flag (C04/C06/C07/C09 obligations)",
                 trusted="stand-ins in prelude/actionloop_env.rs, cliaction_env.rs, task_env.rs, flag_env.rs"),
+    "C14": dict(units=["discover", "ignore"], level="proof",
+                assumptions=["the file system is a fixed function during one discovery (metadata and directory listings as uninterpreted functions; I/O may fail at any call); paths are abstract with parent/starts_with axioms (component-wise, no strings)",
+                             "which directories the walker's filter ignores is IgnoreFilter::check_dir (unit ignore, C03) over the files added so far: an uninterpreted function here",
+                             "the `.git/config` core.excludesFile lookup (gix-config, $HOME) is replaced by a stand-in adding at most one global git file; from_environment (global files) is not decided",
+                             "per-function contracts: find_file, discover_file, from_origin (result = explicit + origin-level + the files of every directory handed out, tagged; each found file reaches the walker's filter before the next directory), DirTourist::{next, visit_path, skip, must_skip}. That together they visit EXACTLY the directories reachable without entering an ignored one (a closure over the whole tree, with a filter that grows during the walk) is composed by reading these contracts, not by one inductive proof; independence of listing order likewise",
+                             "DirTourist::new (canonicalize, filter construction) is covered only by the structural obligations on the VCS metadata directory globs"],
+                claim="Verus proves: only regular non-empty files count; each found file is appended once, tagged with its directory and VCS; from_origin returns exactly explicit + [git-config] + existing origin-level files + existing .ignore/.gitignore/.hgignore of every directory the walker hands out, in order, and feeds each to the walker's filter at once; the walker hands out only queued, unskipped, unignored, watch-related directories, queues every unignored listed subdirectory, prunes ignored ones with everything queued beneath them, and a skipped directory covers its whole subtree",
+                trusted="stand-ins in prelude/discover_env.rs (abstract file system, path theory axioms, HashSet/Vec idioms, IgnoreFilter verdicts)"),
     "C11": dict(units=["globset", "ignore"], level="proof",
                 assumptions=["glob matchers (ignore::gitignore::Gitignore built from --filter/--ignore patterns) are uninterpreted functions of (matcher, path, is_dir); num_ignores() > 0 is read as 'filter patterns configured'",
                              "the backing ignore-files filterer is C03's contract (uninterpreted verdict here)",
